@@ -429,8 +429,23 @@ func (m *Manager) AllocateNAT(privateIP net.IP) (*Allocation, error) {
 		return nil, fmt.Errorf("NAT pool exhausted: no available public IPs")
 	}
 
-	// Calculate port range for this subscriber (deterministic based on subscriber count)
-	portStart := uint16(m.portRangeStart + (selectedPool.Subscribers * m.portsPerSubscriber))
+	// Find the lowest port block on this public IP that no current allocation holds.
+	// (The subscriber count alone is not a free block index once a block in the middle was released.)
+	usedBlocks := make(map[int]bool)
+	m.allocationMu.RLock()
+	for _, a := range m.allocations {
+		if a.PoolIndex == poolIndex {
+			usedBlocks[(int(a.PortStart)-m.portRangeStart)/m.portsPerSubscriber] = true
+		}
+	}
+	m.allocationMu.RUnlock()
+	blockIndex := 0
+	for usedBlocks[blockIndex] {
+		blockIndex++
+	}
+
+	// Calculate port range for this subscriber (deterministic based on the block index)
+	portStart := uint16(m.portRangeStart + (blockIndex * m.portsPerSubscriber))
 	portEnd := portStart + uint16(m.portsPerSubscriber) - 1
 
 	// Get or create subscriber ID
